@@ -15,7 +15,7 @@
    in that table ([do_stmt]); with the bijection, "fails iff the key exists" reads "iff some live
    row holds the key". *)
 From stdpp Require Import gmap.
-From ColumnV Require Import Bytes Store StoreProofs4.
+From ColumnV Require Import Bytes Store StoreProofs StoreProofs4 StoreProofs7.
 
 Theorem c12_step : ∀ cs keys o,
   KeyBij cs keys → key_op_ok cs o → KeyBij (fst (key_step (cs, keys) o)) (snd (key_step (cs, keys) o)).
@@ -52,3 +52,12 @@ Proof.
   exists [mkop KPut 0 (VB [1%N]); mkop KPut 1 (VB [1%N])]. cbn. split; [done|]. split; [done|].
   intros (_ & (_ & H) & _). apply (H 0%N); [done|]. by rewrite lookup_insert.
 Qed.
+
+(* at the level of the collection: across the commit of a block the key table stays the inverse
+   of the key column, for every transaction whose key operations on that block are admissible *)
+Theorem c12_commit_block : ∀ s t b p col,
+  KeyOK s → pk s = Some p → cols s !! p = Some col →
+  key_ops_ok (cells col) (keys s) (filter (λ o, in_blk b o = true) (buf t p)) →
+  wf_row t → KeyOK (commit_block s t b).
+Proof. exact commit_block_key_ok. Qed.
+Print Assumptions c12_commit_block.
